@@ -2,9 +2,10 @@
 //! C16 (formatter side, continued): the remaining numeric conversion specifiers through the real `Formatter::fmt_*`
 //! methods into a fixed buffer.  The rendering of an integer is stated ONCE (`is_int`): an optional '-', then padding
 //! up to the field width, then the decimal digits without leading zeros; every harness states which value, which pad
-//! byte and which width a specifier uses.  The digit/padding loops are bounded by the 20-byte `Decimal` buffer and the
-//! 24-byte writer, so `unwind(26)` is complete (the unwinding assertions are checked) and each harness is a proof for
-//! ALL values of its domain.
+//! byte and which width a specifier uses.  The digit/padding loops are bounded by the 20-byte `Decimal` buffer, the 9-byte
+//! `Fractional` buffer and the 24-byte writer, so each harness's `unwind` bound is complete (the unwinding assertions are
+//! checked and hold) and each harness that is not marked `//@bounded` is a proof for ALL values of its domain.
+//! Where a callee is replaced, the stub and the harness that discharges the callee are named in the //@doc.
 use super::*;
 use crate::civil::{Date, DateTime, Time, Weekday};
 use crate::shared::util::itime::{IDate, IEpochDay};
@@ -121,8 +122,8 @@ fn any_flag() -> Option<Flag> {
 //@harness c16_fmt_ampm
 //@target fmt::strtime::format::Formatter::{fmt_ampm_upper,fmt_ampm_lower,fmt_hour12_zero} + Extension::write_str + BrokenDownTime::hour_ranged (%p %P with every flag, against %I) (src/fmt/strtime/format.rs, src/fmt/strtime/mod.rs)
 //@prop C16
-//@tier quick
-//@timeout 900
+//@tier thorough
+//@timeout 2400
 //@doc for each of the 24 hours (enumerated, so that the case mapping runs on concrete characters), every flag (none _ 0 - ^ #) and every width: %p prints "AM" for hours 0..=11 and "PM" for 12..=23, %P the same in lower case; `^` forces upper case, `#` swaps the case of %p ("am"/"pm") and leaves %P as it is; padding flags and widths do nothing.  Agreement with %I: midnight is 12 AM, noon is 12 PM, and the 12-hour reading (I, AM/PM) that %I and %p print denotes the original hour: BrokenDownTime{hour: I, meridiem}.hour_ranged() == h (the reconciliation the parser side uses for %I %p)
 #[kani::proof]
 #[kani::unwind(26)]
@@ -218,110 +219,111 @@ fn iso_ref(y: i64, m: i64, d: i64, iso_wd: i64) -> (i64, i64) {
         (y, (td - 1) / 7 + 1)
     }
 }
-// `Date::iso_week_date` runs for real; only the two Neri-Schneider conversions are replaced.  to_epoch_day: the closed
-// form `rd` (transcribed from contracts/verus/lib/greg.vrs; the Verus unit itime proves the real function computes it).
-fn rd(y: i32, m: i32, d: i32) -> i32 {
-    let yy = if m <= 2 { y - 1 } else { y };
-    let mm = if m <= 2 { m + 12 } else { m };
-    365 * yy + yy.div_euclid(4) - yy.div_euclid(100) + yy.div_euclid(400) + (153 * (mm - 3) + 2) / 5 + d - 1 - 719468
+// ---- the day count E around one "hint" year, axiomatised (no Neri-Schneider code, no closed form):
+//   E(y,m,d) = J(y) + doy(y,m,d) - 1           (greg.vrs lemma_doy_rd)
+//   J(y+1)   = J(y) + days_in_year(y)           (greg.vrs lemma_rd_year)
+// for the four years hint-1 ..= hint+2, with J(hint) arbitrary such that the three years hint-1..=hint+1 lie in the supported range, and the two range
+// anchors J(-9999) = -4371587 and J(9999) = 2932532 (lemma_rd_bounds: E(9999,12,31) = 2932896).  Every fact is one the Verus
+// unit itime proves of the real `IDate::to_epoch_day`; `IEpochDay::to_date` is its inverse.  Both stubs ASSERT that they are
+// only asked about these years, so nothing is assumed elsewhere.
+static mut AX_H: i32 = 0;
+static mut AX_J: i32 = 0;
+fn ax_init(h: i32) {
+    let j: i32 = kani::any();
+    kani::assume(E_MIN <= j && j <= E_MAX - 364);
+    if h == -9999 { kani::assume(j == E_MIN); }
+    if h == 9999 { kani::assume(j == 2932532); }
+    unsafe { AX_H = h; AX_J = j; }
+    // every day of the years hint-1 ..= hint+1 that exists lies in the supported range (lemma_rd_bounds + monotonicity)
+    if h > -9999 { kani::assume(ax_jan1(h - 1) >= E_MIN); }
+    if h < 9999 { kani::assume(ax_jan1(h + 2) - 1 <= E_MAX); }
 }
-fn rd_to_epoch_day(d: &IDate) -> IEpochDay {
+fn ax_jan1(y: i32) -> i32 {
+    let (h, j) = unsafe { (AX_H, AX_J) };
+    if y == h { j }
+    else if y == h + 1 { j + diy(h as i64) as i32 }
+    else if y == h + 2 { j + diy(h as i64) as i32 + diy(h as i64 + 1) as i32 }
+    else if y == h - 1 { j - diy(h as i64 - 1) as i32 }
+    else { assert!(false, "day count asked about a year outside hint-1..=hint+2"); 0 }
+}
+fn ax_e(y: i64, m: i64, d: i64) -> i64 { ax_jan1(y as i32) as i64 + doy(y, m, d) - 1 }
+fn ax_to_epoch_day(d: &IDate) -> IEpochDay {
     // precondition of the verified contract: a supported date, or 10000-01-04 (the one extra date the ISO week code builds, see c01_isoweek)
     assert!(valid(d.year as i64, d.month as i64, d.day as i64) || (d.year == 10000 && d.month == 1 && d.day == 4));
-    IEpochDay { epoch_day: rd(d.year as i32, d.month as i32, d.day as i32) }
+    IEpochDay { epoch_day: ax_e(d.year as i64, d.month as i64, d.day as i64) as i32 }
 }
-// to_date: its contract (inverse of rd) instantiated where iso_week_date needs it -- the days rd(Y,1,4)-3 ..= rd(Y,1,4)+3
-// are January 1..=7 of year Y (rd is linear in the day of the month) -- for the three candidate years around the date's
-// year; the stub ASSERTS that the argument lies in one of these windows
-static mut HINT_YEAR: i32 = 0;
-fn window_to_date_rd(e: &IEpochDay) -> IDate {
+fn ax_to_date(e: &IEpochDay) -> IDate {
     assert!(E_MIN <= e.epoch_day && e.epoch_day <= E_MAX);
-    let h = unsafe { HINT_YEAR };
-    let mut out = IDate { year: 0, month: 0, day: 0 };
+    let h = unsafe { AX_H };
+    let d = IDate { year: kani::any(), month: kani::any(), day: kani::any() };
+    kani::assume(valid(d.year as i64, d.month as i64, d.day as i64));
     let mut hit = false;
     let mut i = -1;
     while i <= 1 {
         let yy = h + i;
         if -9999 <= yy && yy <= 9999 {
-            let k = e.epoch_day - rd(yy, 1, 4);
-            if -3 <= k && k <= 3 { out = IDate { year: yy as i16, month: 1, day: (4 + k) as i8 }; hit = true; }
+            let k = (e.epoch_day - ax_jan1(yy)) as i64;
+            if 0 <= k && k < diy(yy as i64) {
+                kani::assume(d.year as i32 == yy && doy(yy as i64, d.month as i64, d.day as i64) == k + 1);
+                hit = true;
+            }
         }
         i += 1;
     }
-    assert!(hit, "to_date called outside the first seven days of the candidate years");
-    out
+    assert!(hit, "to_date asked about a day outside the years hint-1..=hint+1");
+    d
+}
+// the weekday of a day number near the hint year, W(e) = (W(J(hint)) + (e - J(hint))) mod 7 -- what the contract of
+// `IEpochDay::weekday` (wd(e) = (e + 3) mod 7, Verus unit itime) says, written relative to January 1 of the hint year so
+// that the model checker reasons modulo 7 about small numbers only; W(J(hint)) is arbitrary (0 = Monday) except at the anchors
+static mut AX_W0: i16 = 0;
+fn ax_init_weekday(h: i32) {
+    let w0: i16 = kani::any();
+    kani::assume(0 <= w0 && w0 <= 6);
+    if h == -9999 { kani::assume(w0 == 0); }   // -9999-01-01 is a Monday: (-4371587 + 3) mod 7 == 0
+    if h == 9999 { kani::assume(w0 == 4); }    // 9999-01-01 is a Friday: (2932532 + 3) mod 7 == 4
+    unsafe { AX_W0 = w0; }
+}
+fn ax_wd0(e: i64) -> i16 {
+    let (j, w0) = unsafe { (AX_J, AX_W0) };
+    let k = e - j as i64;
+    assert!(-800 <= k && k <= 1200, "weekday asked about a day far from the hint year");
+    (w0 + k as i16).rem_euclid(7)
+}
+fn ax_weekday(e: &IEpochDay) -> crate::shared::util::itime::IWeekday {
+    crate::shared::util::itime::IWeekday::from_monday_zero_offset(ax_wd0(e.epoch_day as i64) as i8)
 }
 
-//@harness c16_iso_week_date_rd
-//@target civil::Date::iso_week_date + iso_week_start_from_year (the value behind %G %g %V) (src/civil/date.rs)
+//@harness c16_iso_week_date
+//@target civil::Date::iso_week_date + iso_week_start_from_year + Date::from_unix_epoch_day (the value behind %G %g %V) (src/civil/date.rs)
 //@prop C16 C01
 //@tier quick
-//@timeout 1500
-//@doc EXPERIMENT V1
+//@timeout 900
+//@doc for every date: the real `Date::iso_week_date` returns the ISO 8601 week-based year and week defined by the Thursday rule (year = calendar year of the Thursday of the date's Monday-based week, week = 1 + (that Thursday's ordinal day - 1) / 7, always 1..=53) and the date's weekday; the `.expect` inside cannot fail; `iso_week_start_from_year` is never asked about year -10000.  The two Neri-Schneider conversions are replaced by the axiomatised day count around the date's year (ax_init) and `IEpochDay::weekday` by the same function written relative to January 1 of that year (ax_init_weekday); day number and weekday of January 1 are arbitrary, which covers every real year
 #[kani::proof]
-#[kani::stub(IDate::to_epoch_day, rd_to_epoch_day)]
-#[kani::stub(IEpochDay::to_date, window_to_date_rd)]
+#[kani::stub(IDate::to_epoch_day, ax_to_epoch_day)]
+#[kani::stub(IEpochDay::to_date, ax_to_date)]
+#[kani::stub(IEpochDay::weekday, ax_weekday)]
 #[kani::unwind(6)]
-fn c16_iso_week_date_rd() {
+fn c16_iso_week_date() {
     let dt = any_date();
     let (y, m, d) = ymd(dt);
-    unsafe { HINT_YEAR = y as i32; }
-    let iso_wd = wd(rd(y as i32, m as i32, d as i32) as i64);
+    ax_init(y as i32);
+    ax_init_weekday(y as i32);
+    let iso_wd = ax_wd0(ax_e(y, m, d)) as i64 + 1;
     let (gy, gw) = iso_ref(y, m, d, iso_wd);
     let got = dt.iso_week_date();
     assert!(got.year() as i64 == gy && got.week() as i64 == gw && wnum(got.weekday()) == iso_wd);
     assert!(1 <= gw && gw <= 53);
+    // the assumptions of the axiomatised stubs are satisfiable in every interesting corner
+    kani::cover!(gw == 53 && gy == y - 1);
+    kani::cover!(gw == 1 && gy == y + 1);
+    kani::cover!(gw == 53 && gy == y);
+    kani::cover!(y == 9999 && m == 12 && d == 31);
+    kani::cover!(y == -9999 && m == 1 && d == 1);
 }
 
 use crate::verif_kani::memo::*;
-fn memo_x_to_epoch_day(d: &IDate) -> IEpochDay {
-    if d.year == 10000 && d.month == 1 && d.day == 4 {
-        // the one out-of-range date (c01_iso_week_start_year_10000: the real code yields 2932900), 365 days after 9999-01-04
-        let e = memo_to_epoch_day(&IDate { year: 9999, month: 1, day: 4 });
-        kani::assume(e.epoch_day == 2932535);
-        return IEpochDay { epoch_day: 2932900 };
-    }
-    memo_to_epoch_day(d)
-}
-fn window_to_date_memo(e: &IEpochDay) -> IDate {
-    assert!(E_MIN <= e.epoch_day && e.epoch_day <= E_MAX);
-    let h = unsafe { HINT_YEAR };
-    let mut out = IDate { year: 0, month: 0, day: 0 };
-    let mut hit = false;
-    let mut i = -1;
-    while i <= 1 {
-        let yy = h + i;
-        if -9999 <= yy && yy <= 9999 {
-            let k = e.epoch_day - memo_to_epoch_day(&IDate { year: yy as i16, month: 1, day: 4 }).epoch_day;
-            if -3 <= k && k <= 3 { out = IDate { year: yy as i16, month: 1, day: (4 + k) as i8 }; hit = true; }
-        }
-        i += 1;
-    }
-    assert!(hit, "to_date called outside the first seven days of the candidate years");
-    out
-}
-
-//@harness c16_iso_week_date_memo
-//@target civil::Date::iso_week_date + iso_week_start_from_year (the value behind %G %g %V) (src/civil/date.rs)
-//@prop C16 C01
-//@tier quick
-//@timeout 1500
-//@doc EXPERIMENT V2
-#[kani::proof]
-#[kani::stub(IDate::to_epoch_day, memo_x_to_epoch_day)]
-#[kani::stub(IEpochDay::to_date, window_to_date_memo)]
-#[kani::unwind(6)]
-fn c16_iso_week_date_memo() {
-    memo_facts(F_YEAR);
-    let dt = any_date();
-    let (y, m, d) = ymd(dt);
-    unsafe { HINT_YEAR = y as i32; }
-    let iso_wd = wd(e_of(y, m, d));
-    let (gy, gw) = iso_ref(y, m, d, iso_wd);
-    let got = dt.iso_week_date();
-    assert!(got.year() as i64 == gy && got.week() as i64 == gw && wnum(got.weekday()) == iso_wd);
-    assert!(1 <= gw && gw <= 53);
-}
 
 // ---- %s
 use crate::tz::Offset as Off;
@@ -342,8 +344,8 @@ fn any_zoned_fields(zero_fraction: bool) -> (BrokenDownTime, i64) {
 //@target fmt::strtime::BrokenDownTime::{to_timestamp,to_datetime,to_date,to_time,to_offset} (the value behind %s, from the fields a Zoned / Timestamp fills in) (src/fmt/strtime/mod.rs)
 //@prop C16 C02
 //@tier quick
-//@timeout 1200
-//@doc for every civil datetime WITH ZERO FRACTION and every offset -93599..=93599 (the fields From<&Zoned> / From<Timestamp> store): to_timestamp is Ok exactly when N = E(date)*86400 + h*3600 + m*60 + s - offset lies within Timestamp::MIN..=Timestamp::MAX seconds, and then its as_second() is N (the C library's "seconds since the Epoch" of the broken-down time); E is the Verus-proved day count (axiomatised memo stub).  With a fraction see c16_timestamp_value_fraction
+//@timeout 600
+//@doc for every civil datetime WITH ZERO FRACTION and every offset -93599..=93599 (the fields From<&Zoned> / From<Timestamp> store): to_timestamp is Ok exactly when N = E(date)*86400 + h*3600 + m*60 + s - offset lies within Timestamp::MIN..=Timestamp::MAX seconds, and then its as_second() is N (the C library's "seconds since the Epoch" of the broken-down time); E is the Verus-proved day count (axiomatised memo stub).  With a fraction see c16_timestamp_fraction_floor
 #[kani::proof]
 #[kani::stub(IDate::to_epoch_day, memo_to_epoch_day)]
 #[kani::unwind(6)]
@@ -354,20 +356,39 @@ fn c16_timestamp_value() {
     if let Ok(ts) = r { assert!(ts.as_second() == want && ts.subsec_nanosecond() == 0); }
 }
 
-//@harness c16_timestamp_value_fraction
+//@harness c16_timestamp_fraction_floor
 //@target fmt::strtime::format::Formatter::fmt_timestamp = BrokenDownTime::to_timestamp().as_second() (%s of an instant with a fractional second) (src/fmt/strtime/format.rs)
 //@prop C16
 //@tier quick
-//@timeout 1200
+//@timeout 600
 //@doc as c16_timestamp_value for every fraction 0..=999_999_999 ns: the number %s prints is the Unix time of the civil second that the same value's %S (and %Y-%m-%d %H:%M) print, i.e. floor(instant) -- "seconds since the Epoch" of the broken-down fields, as mktime()/strftime define it.  On jiff 0.2.8 this FAILS for instants before 1970 with a non-zero fraction: Timestamp::as_second truncates toward zero, so 1969-12-31T23:59:59.5Z formats with "%s|%S" as "0|59" (expected "-1|59") and strptime("%s") of the output yields 1970-01-01T00:00:00Z
 #[kani::proof]
 #[kani::stub(IDate::to_epoch_day, memo_to_epoch_day)]
 #[kani::unwind(6)]
-fn c16_timestamp_value_fraction() {
+fn c16_timestamp_fraction_floor() {
     let (tm, want) = any_zoned_fields(false);
     if let Ok(ts) = tm.to_timestamp() { assert!(ts.as_second() == want); }
 }
 
+/// the plain rendering of v (|v| < 10^13): ['-'] ++ the decimal digits of |v|, nothing else.  The digits are stated by their
+/// definition: there are ndigits(|v|) of them (no leading zero) and digit j, counted from the right, is (|v| / 10^j) mod 10
+fn is_plain_decimal(w: &Buf, v: i64) -> bool {
+    let a = if v < 0 { -v } else { v };
+    let nd = ndigits(a);
+    let sign = if v < 0 { 1 } else { 0 };
+    if w.overflow || w.n != sign + nd { return false; }
+    if sign == 1 && w.b[0] != b'-' { return false; }
+    let mut rem = a;
+    let mut i = 0;
+    while i < 13 {
+        if i < nd {
+            if w.b[w.n - 1 - i] != b'0' + (rem % 10) as u8 { return false; }
+            rem /= 10;
+        }
+        i += 1;
+    }
+    rem == 0
+}
 static mut STUB_SECOND: i64 = 0;
 fn stub_to_timestamp(_tm: &BrokenDownTime) -> Result<Timestamp, Error> {
     if kani::any() {
@@ -383,12 +404,13 @@ fn stub_to_timestamp(_tm: &BrokenDownTime) -> Result<Timestamp, Error> {
 //@harness c16_fmt_timestamp_print
 //@target fmt::strtime::format::Formatter::fmt_timestamp + Extension::write_int + fmt::util::Decimal::new on 12-digit values (%s) (src/fmt/strtime/format.rs, src/fmt/util.rs)
 //@prop C16
-//@tier quick
-//@timeout 1200
+//@tier thorough
+//@timeout 2400
 //@doc glue + printing, callee BrokenDownTime::to_timestamp replaced by a nondeterministic stub (any Timestamp second in -377705023201..=253402207200, or Err; its value is c16_timestamp_value): %s is Err exactly when to_timestamp is, otherwise it prints as_second() as a plain decimal: '-' for negative values, no padding, no leading zeros, for EVERY second in the Timestamp range
 #[kani::proof]
 #[kani::stub(BrokenDownTime::to_timestamp, stub_to_timestamp)]
-#[kani::unwind(26)]
+#[kani::unwind(15)]
+#[kani::solver(kissat)]
 fn c16_fmt_timestamp_print() {
     let tm = BrokenDownTime::default();
     let mut w = Buf::new();
@@ -396,7 +418,7 @@ fn c16_fmt_timestamp_print() {
     let r = { let mut f = Formatter { fmt: b"", tm: &tm, wtr: &mut w }; f.fmt_timestamp(NOEXT) };
     let s = unsafe { STUB_SECOND };
     assert!(r.is_ok() == (s != i64::MIN));
-    if r.is_ok() { assert!(is_int(&w, s, b' ', 0)); }
+    if r.is_ok() { assert!(is_plain_decimal(&w, s)); }
 }
 
 // ---- %f / %.f
@@ -435,11 +457,12 @@ fn is_frac_trimmed(w: &Buf, from: usize, ns: u64) -> bool {
 //@harness c16_fmt_fractional_auto
 //@target fmt::strtime::format::Formatter::{fmt_fractional,fmt_dot_fractional} + Extension::write_fractional_seconds + fmt::util::Fractional::new (%f %.f without a precision) (src/fmt/strtime/format.rs, src/fmt/util.rs)
 //@prop C16
-//@tier quick
-//@timeout 1200
+//@tier thorough
+//@timeout 2400
 //@doc for every nanosecond count 0..=999_999_999 and every flag, no precision given; D = the 9-digit zero padded count.  %f prints D without its trailing zeros (so the digits P with P * 10^(9 - len) == ns and last digit non-zero), and "0" for a zero count (at least one digit); %.f prints "." followed by the same digits, and the empty string for a zero count.  Always Ok; flags change nothing
 #[kani::proof]
-#[kani::unwind(26)]
+#[kani::unwind(12)]
+#[kani::solver(kissat)]
 fn c16_fmt_fractional_auto() {
     let (time, _, _, _, ns) = any_time();
     let tm = BrokenDownTime::from(time);
@@ -462,11 +485,12 @@ fn c16_fmt_fractional_auto() {
 //@harness c16_fmt_fractional_precision
 //@target fmt::strtime::format::Formatter::{fmt_fractional,fmt_dot_fractional} + Extension::write_fractional_seconds + fmt::util::{FractionalFormatter::precision,Fractional::new} (%Nf %.Nf) (src/fmt/strtime/format.rs, src/fmt/util.rs)
 //@prop C16
-//@tier quick
-//@timeout 1200
+//@tier thorough
+//@timeout 2400
 //@doc for every nanosecond count 0..=999_999_999, every flag and every precision 0..=255: %f with precision 0 is Err, %.f with precision 0 prints nothing; precision p >= 1 prints exactly min(p, 9) digits, the first min(p, 9) digits of the 9-digit zero padded count: truncation, never rounding (the k-digit number P with P*10^(9-k) <= ns < (P+1)*10^(9-k)); zero counts print zeros; %.f puts "." in front
 #[kani::proof]
-#[kani::unwind(26)]
+#[kani::unwind(12)]
+#[kani::solver(kissat)]
 fn c16_fmt_fractional_precision() {
     let (time, _, _, _, ns) = any_time();
     let tm = BrokenDownTime::from(time);
@@ -493,7 +517,7 @@ fn c16_fmt_fractional_precision() {
 //@target fmt::strtime::format::Extension::write_int + fmt::util::{DecimalFormatter,Decimal::new} through Formatter::fmt_year (%Y with every flag and width) (src/fmt/strtime/format.rs, src/fmt/util.rs)
 //@prop C16
 //@tier quick
-//@timeout 1200
+//@timeout 600
 //@doc the flag/width extensions on the representative numeric specifier %Y (default: zero padded to 4), for every year -9999..=9999, every flag and every width (absent, 0..=255): the text is '-' for negative years, then padding, then the digits of |year| without leading zeros; the pad byte is ' ' for `_`, '0' for `0`, the default '0' otherwise (`^` and `#` change nothing); the digit count is padded to the explicit width if present, else 4, and `-` suppresses all padding even when a width is given; widths above 19 act as 19 (Decimal's capacity; the documentation promises any width below 256).  Note the sign is written BEFORE the padding also for space padding ("%_6Y" of year -24 is "-    24")
 #[kani::proof]
 #[kani::unwind(26)]
@@ -523,7 +547,7 @@ fn dec3(b: &[u8], at: usize, k: usize) -> i64 {
 //@target fmt::strtime::format::Formatter::parse_extension = Extension::{parse_flag,parse_width} + util::parse::i64 (the text between '%' and the directive) (src/fmt/strtime/mod.rs)
 //@prop C16
 //@tier quick
-//@timeout 900
+//@timeout 600
 //@bounded format text of 1..=6 bytes after the '%' (one flag byte, up to 4 width digits, the directive)
 //@doc precondition: at least one byte after '%' (format() checks it).  The first byte selects the flag (_ 0 - ^ #, else none and nothing is consumed); the following maximal digit run is the width in decimal (Err if it exceeds 255); at least one byte (the directive) must remain, else Err; on Ok the unread rest starts at the directive.  No panic
 #[kani::proof]
@@ -573,7 +597,7 @@ fn same_text(a: bool, b: bool, w: &Buf, v: &Buf) {
 //@target fmt::strtime::format::Formatter::format (the directive table: H k I l M S) (src/fmt/strtime/format.rs)
 //@prop C16
 //@tier quick
-//@timeout 1200
+//@timeout 900
 //@doc for every civil time and each of the directives H k I l M S: formatting the 2-byte format "%X" through the real `format()` loop is Ok and writes exactly the bytes that the fmt_* method specified for X in c16_fmt_clock_fields writes, so the table maps every letter to its own method; a lone "%" is an Err, not a panic
 #[kani::proof]
 #[kani::unwind(26)]
@@ -596,8 +620,8 @@ fn c16_fmt_dispatch_time() {
 //@harness c16_fmt_dispatch_date
 //@target fmt::strtime::format::Formatter::format (the directive table: Y C y m d e j u w G g V) (src/fmt/strtime/format.rs)
 //@prop C16
-//@tier quick
-//@timeout 1200
+//@tier thorough
+//@timeout 2400
 //@doc for every date of the years 1970..=2067 (so that %y and %g are defined) and each of the directives Y C y m d e j u w G g V: formatting "%X" through the real `format()` loop is Ok and writes exactly the bytes of the fmt_* method specified for X (c16_fmt_date_fields, c16_numeric_calendar_facts, c16_fmt_iso_week_print); `Date::iso_week_date` and the day count are nondeterministic stubs here (the same value is seen by both sides)
 #[kani::proof]
 #[kani::stub(IDate::to_epoch_day, memo_to_epoch_day)]
@@ -643,7 +667,7 @@ fn stub_iso_week_date(d: Date) -> crate::civil::ISOWeekDate {
 //@target fmt::strtime::format::Formatter::{fmt_iso_week_year,fmt_iso_week_year2,fmt_week_iso} (%G %g %V: glue and printing) (src/fmt/strtime/format.rs)
 //@prop C16
 //@tier quick
-//@timeout 1200
+//@timeout 900
 //@doc (a) with the ISO fields present in the broken-down time (every ISO year -9999..=9999, week 1..=53): %G prints the year like %Y ('-' for negative years, then 4 zero padded digits), %V the week as 2 digits, %g is Ok exactly for ISO years 1969..=2068 and prints year mod 100 as 2 digits.  (b) for a broken-down time made from a Date (every date): the three methods ask `Date::iso_week_date` about exactly that date and print its year / week the same way (callee replaced by a recording nondeterministic stub; its value -- the ISO 8601 year and week of the date by the Thursday rule -- is c16_iso_week_date)
 #[kani::proof]
 #[kani::stub(IDate::to_epoch_day, memo_to_epoch_day)]
